@@ -187,7 +187,7 @@ pub struct Dedicated {
 }
 //@end
 //@item src/supply/periodic.rs :: struct Periodic
-pub struct Periodic {
+pub struct /*@R19: Periodic @*/SupplyPeriodic/*@.*/ {
     pub period: Duration,
     pub budget: Service,
 }
@@ -200,6 +200,14 @@ pub struct Constrained {
 }
 //@end
 
+
+// derive(Clone, Copy) (R12)
+impl Clone for Dedicated { fn clone(&self) -> (r: Dedicated) ensures r == *self { Dedicated {} } }
+impl Copy for Dedicated {}
+impl Clone for SupplyPeriodic { fn clone(&self) -> (r: SupplyPeriodic) ensures r == *self { SupplyPeriodic { period: self.period, budget: self.budget } } }
+impl Copy for SupplyPeriodic {}
+impl Clone for Constrained { fn clone(&self) -> (r: Constrained) ensures r == *self { Constrained { period: self.period, budget: self.budget, deadline: self.deadline } } }
+impl Copy for Constrained {}
 
 impl Dedicated {
 //@item src/supply/dedicated.rs :: impl Dedicated / fn new
@@ -229,13 +237,13 @@ impl SupplyBound for Dedicated {
 //@end
 }
 
-impl Periodic {
+impl SupplyPeriodic {
 //@item src/supply/periodic.rs :: impl Periodic / fn new
     pub fn new(budget: Service, period: Duration) -> /*+*/(r: /*-*/Self/*+*/)
         requires budget.val <= period.val     // the constructor's assert!
         ensures r.period == period, r.budget == budget, budget.val >= 1 ==> r.wf()/*-*/ {
         /*@R6: assert!( @*/vf_assert(/*@.*/Duration::from(budget) <= period);
-        Periodic { period, budget }
+        /*@R19: Periodic @*/SupplyPeriodic/*@.*/ { period, budget }
     }
 //@end
 }
@@ -256,7 +264,7 @@ impl Constrained {
 //@end
 }
 
-impl SupplyBound for Periodic {
+impl SupplyBound for SupplyPeriodic {
     open spec fn wf(&self) -> bool { 1 <= self.budget.val <= self.period.val }
     open spec fn sbf(&self, delta: int) -> int { sbf_periodic(self.period.v(), self.budget.v(), delta) }
     open spec fn st(&self, demand: int) -> int { st_constrained(self.period.v(), self.budget.v(), self.period.v(), demand) }
